@@ -360,7 +360,10 @@ def model_validation(ctx, runner):
 
 
 def load_known(ctx):
-    return {k["id"]: k for k in ctx.known()}
+    """only /verif/known/C01.json is read (ctx.known() also parses every other property's file)"""
+    p = os.path.join(VERIF, "known", "C01.json")
+    ents = json.load(open(p)) if os.path.exists(p) else []
+    return {k["id"]: k for k in ents if isinstance(k, dict) and k.get("property") == "C01" and k.get("status") == "finding"}
 
 
 def run(ctx):
